@@ -35,11 +35,14 @@ pub struct Case {
     /// the pass evicts and re-queues).  2: the same, and .kismet_temp holds a stale file, a young file and a stale
     /// three-level directory tree (what a writer staging a multi-file value leaves behind when it dies)
     pub maint: u8,
+    /// (checker cells) the copies in the read-only levels hold another value than the first copy found: the
+    /// comparison fails, and the bounds hold on that path too
+    pub disagree: bool,
 }
 
 impl Case {
     fn to_json(&self) -> Value {
-        json!({"scenario": self.scenario, "sharded": self.sharded, "depth": self.depth, "checker": self.checker, "maint": self.maint})
+        json!({"scenario": self.scenario, "sharded": self.sharded, "depth": self.depth, "checker": self.checker, "maint": self.maint, "disagree": self.disagree})
     }
     fn from_json(v: &Value) -> Case {
         Case {
@@ -48,6 +51,7 @@ impl Case {
             depth: v["depth"].as_u64().unwrap() as usize,
             checker: v["checker"].as_bool().unwrap(),
             maint: v["maint"].as_u64().unwrap_or(0) as u8,
+            disagree: v["disagree"].as_bool().unwrap_or(false),
         }
     }
 }
@@ -152,9 +156,11 @@ fn observe_with(case: &Case, size: usize, ctl: Option<std::sync::Arc<dyn shim::C
     }
     if case.checker || everywhere {
         // an identical copy in every read level (work for the checker; without one, later copies must not even be opened)
-        for r in &dirs.reads {
+        for (ri, r) in dirs.reads.iter().enumerate() {
             if world::lstat(&r.join("key")).is_none() && (in_write || in_last) {
-                world::plant(&r.join("key"), &a.bytes(), 0o444, old - 120_000_000_000, old);
+                // (disagreeing: every level its own value, so that the read-only levels disagree among themselves too)
+                let v = if case.disagree { Val::new(1 + ri as u8, world::Size::Five) } else { a };
+                world::plant(&r.join("key"), &v.bytes(), 0o444, old - 120_000_000_000, old);
             }
         }
     }
@@ -325,7 +331,8 @@ pub fn run_case(case: &Case, rep: &mut Report) -> Vec<(String, String)> {
         if o.result != obs[0].result {
             bad.push(("result-depends-on-size".into(), format!("{} vs {}", o.result, obs[0].result)));
         }
-        if o.result.starts_with("err") || o.result.starts_with("panic") {
+        // (over disagreeing copies the checker's verdict is the expected result)
+        if (o.result.starts_with("err") && !case.disagree) || o.result.starts_with("panic") {
             bad.push(("error".into(), format!("operation failed: {}", o.result)));
         }
         if o.listed > 0 {
@@ -400,7 +407,7 @@ fn fault_section(shard: Shard, rep: &mut Report) {
                         continue;
                     }
                 }
-                let case = Case { scenario: sc.to_string(), sharded, depth, checker: false, maint: 0 };
+                let case = Case { scenario: sc.to_string(), sharded, depth, checker: false, maint: 0, disagree: false };
                 let base = observe_with(&case, 10, None);
                 for (k, ev) in base.trace.iter().enumerate() {
                     for a in plausible(ev, false).into_iter().take(if crate::props::e1::THOROUGH.load(std::sync::atomic::Ordering::SeqCst) || (ev.kind == Kind::Open && sc.starts_with("get")) { 8 } else { 2 }) {
@@ -532,7 +539,7 @@ fn concurrent_check(x: &crate::sched::Execution) -> Vec<(String, String)> {
 pub fn run(_tier: Tier, shard: Shard, rep: &mut Report) {
     rep.rule = "operation scenario {get hit/miss/hit in the last level, touch hit/miss, set new/existing, put insert/hit, ensure \
         hit/miss/promote, set_temp_file, get/touch/ensure with the key present in every level, and put/set through a handle that has \
-        already performed that many writes} x write front-end {plain, sharded(3)} x stack depth 1-3 x checker {off, on} with every \
+        already performed that many writes} x write front-end {plain, sharded(3)} x stack depth 1-3 x checker {off, on; lookups with a checker also over disagreeing copies} with every \
         directory pre-populated with 0, 10, 100 and 2000 (thorough: also 20000; stack depth up to 4) entries (maintenance scripted not to fire): per-kind call counts identical \
         across the four sizes, no readdir, <= 2 open attempts per cache directory per lookup, peak simultaneously open \
         files + directory streams <= 2 (3 with a checker) from the intercepted open/close stream, nothing left open afterwards \
@@ -559,8 +566,14 @@ pub fn run(_tier: Tier, shard: Shard, rep: &mut Report) {
                     if !shard.mine(no) {
                         continue;
                     }
-                    let case = Case { scenario: sc.to_string(), sharded, depth, checker, maint: 0 };
+                    let case = Case { scenario: sc.to_string(), sharded, depth, checker, maint: 0, disagree: false };
                     record(&case, rep);
+                    if checker && depth >= 2 && matches!(*sc, "get_hit" | "get_hit_all_levels" | "get_hit_last_level" | "ensure_hit" | "touch_hit_all_levels") {
+                        let mut d = case.clone();
+                        d.disagree = true;
+                        rep.count("disagreeing_copy_cells", 1);
+                        record(&d, rep);
+                    }
                     if no % 37 == 0 {
                         rep.sample(case.to_json());
                     }
@@ -582,7 +595,7 @@ pub fn run(_tier: Tier, shard: Shard, rep: &mut Report) {
                             continue;
                         }
                         rep.count("maintenance_firing_cells", 1);
-                        record(&Case { scenario: sc.to_string(), sharded, depth, checker, maint }, rep);
+                        record(&Case { scenario: sc.to_string(), sharded, depth, checker, maint, disagree: false }, rep);
                     }
                 }
             }
